@@ -1,8 +1,103 @@
+import Corro.Model.ClusterGate
 import Driver.Util
-/-! Driver stub for C16: not built yet. -/
+/-!
+Line-protocol driver for C16 (model side).  Ops (one scenario per case):
+
+  bcast <sender|absent> <receiver>        → `applied` | `dropped`
+  sync <client|absent> <server>           → `first=<state|rejection:different-cluster> changesets=<yes|no> psync=<synced|rejected|->`
+                                            (one changeset is requested; `psync` is the real client
+                                            `parallel_sync` of a node of cluster <client>, `-` for `absent`)
+  candidates <mine> <members>             → `chosen <ids>`     (all sync candidates)
+  targets <mine> <local|relay> <members>  → `ring0=<ids> sent=<ids>`
+
+members: `id:cluster:ring` joined by `,` (`-` = empty table); id = 0..11 or `s` (the node itself);
+cluster ≤ 65535 (u16 in the code); ring = `-` | 0..5.  An address is identified with its member id.
+-/
 namespace Driver.C16
+open Corro.ClusterGate
+
+def selfId : Nat := 1000000
+def maxCandidates : Nat := 6
+def maxTargets : Nat := 8
+
+def cluster? (s : String) : Option Nat := do
+  let n ← s.toNat?
+  if n ≤ 65535 then some n else none
+
+def declared? (s : String) : Option (Option Nat) :=
+  if s = "absent" then some none else (cluster? s).map some
+
+def member? (s : String) : Option Member :=
+  match s.splitOn ":" with
+  | [i, c, r] => do
+    let id ← if i = "s" then some selfId else (i.toNat?).bind (fun n => if n ≤ 11 then some n else none)
+    let c ← cluster? c
+    let ring ← if r = "-" then some none else (r.toNat?).bind (fun n => if n ≤ 5 then some (some n) else none)
+    pure ⟨id, id, c, ring⟩
+  | _ => none
+
+def nodup : List Nat → Bool
+  | [] => true
+  | x :: r => !r.contains x && nodup r
+
+def members? (s : String) : Option (List Member) := do
+  let ms ← (splitList s).mapM member?
+  if nodup (ms.map (·.actor)) then some ms else none
+
+def insertSorted (x : Nat) : List Nat → List Nat
+  | [] => [x]
+  | y :: r => if x < y then x :: y :: r else if x = y then y :: r else y :: insertSorted x r
+
+def sortDedup (xs : List Nat) : List Nat := xs.foldl (fun acc x => insertSorted x acc) []
+
+def showIds (xs : List Nat) : String :=
+  showList ((sortDedup xs).map (fun n => if n = selfId then "s" else toString n))
+
+def eligible (mine : Nat) (ms : List Member) : Nat :=
+  (ms.filter (fun m => m.cluster == mine && m.actor != selfId)).length
+
+def run (toks : List String) : Option String :=
+  match toks with
+  | ["bcast", s, r] => do
+    let s ← declared? s
+    let r ← cluster? r
+    pure (if acceptBroadcast r s then "applied" else "dropped")
+  | ["sync", c, s] => do
+    let c ← declared? c
+    let s ← cluster? s
+    let resp := serveSync s c true 1
+    let first := match firstIsRejection resp with
+      | some Rejection.differentCluster => "rejection:different-cluster"
+      | some Rejection.maxConcurrencyReached => "rejection:max-concurrency"
+      | none => match resp with
+        | Msg.state :: _ => "state"
+        | _ => "other"
+    let cs := if changesetCount resp > 0 then "yes" else "no"
+    let ps := match c with
+      | none => "-"
+      | some cid => if clientSync cid s true 1 > 0 then "synced" else "rejected"
+    pure s!"first={first} changesets={cs} psync={ps}"
+  | ["candidates", mine, ms] => do
+    let mine ← cluster? mine
+    let ms ← members? ms
+    if eligible mine ms > maxCandidates then pure "err too-many-eligible" else
+    pure ("chosen " ++ showIds ((syncCandidates selfId mine ms).map (·.actor)))
+  | ["targets", mine, mode, ms] => do
+    let mine ← cluster? mine
+    let isLocal ← if mode = "local" then some true else if mode = "relay" then some false else none
+    let ms ← members? ms
+    if eligible mine ms > maxTargets then pure "err too-many-eligible" else
+    let r0 := ring0Targets mine ms
+    -- a local broadcast goes to ring 0 at once; the pending copy is sent in a later turn of the loop,
+    -- where the `ring0` set of that turn is empty again
+    let sent := if isLocal then r0 ++ broadcastTargets selfId mine true [] [] ms
+                else broadcastTargets selfId mine false [] [] ms
+    pure s!"ring0={showIds r0} sent={showIds sent}"
+  | _ => none
+
 abbrev State := Unit
 def init : State := ()
-def step (st : State) (_toks : List String) : Option (State × String) := some (st, "bad-op")
+def step (st : State) (toks : List String) : Option (State × String) := (run toks).map (st, ·)
+
 end Driver.C16
 def main : IO Unit := Driver.runLoop Driver.C16.init Driver.C16.step
